@@ -40,6 +40,13 @@ static std::vector<LayerView> views(const PDU* p) {
     std::vector<LayerView> out;
     for (const PDU* q = p; q; q = q->inner_pdu()) {
         LayerView lv; View v; lv.cls = describe_layer(*q, v); lv.kv = v.kv; const RawPDU* r = dynamic_cast<const RawPDU*>(q); lv.is_raw = r != nullptr; if (r) lv.raw = r->payload();
+        // LLC declares its getters non-const, so the header scan (const getters only) sees none of its fields: add them by hand
+        if (const LLC* lc = dynamic_cast<const LLC*>(q)) { LLC& m = const_cast<LLC&>(*lc);
+            lv.kv.push_back({"LLC.dsap", std::to_string((unsigned)m.dsap())}); lv.kv.push_back({"LLC.ssap", std::to_string((unsigned)m.ssap())}); lv.kv.push_back({"LLC.type", std::to_string((unsigned)m.type())});
+            if (m.type() != LLC::UNNUMBERED) { lv.kv.push_back({"LLC.receive_seq_number", std::to_string((unsigned)m.receive_seq_number())}); lv.kv.push_back({"LLC.poll_final", std::to_string((unsigned)m.poll_final())}); }
+            if (m.type() == LLC::INFORMATION) lv.kv.push_back({"LLC.send_seq_number", std::to_string((unsigned)m.send_seq_number())});
+            if (m.type() == LLC::SUPERVISORY) lv.kv.push_back({"LLC.supervisory_function", std::to_string((unsigned)m.supervisory_function())});
+            if (m.type() == LLC::UNNUMBERED) { lv.kv.push_back({"LLC.modifier_function", std::to_string((unsigned)m.modifier_function())}); lv.kv.push_back({"LLC.poll_final", std::to_string((unsigned)m.poll_final())}); } }
         lv.rem_size = q->size(); lv.rfc4884 = false;
         if (const ICMP* ic = dynamic_cast<const ICMP*>(q)) lv.rfc4884 = ic->type() == ICMP::DEST_UNREACHABLE || ic->type() == ICMP::TIME_EXCEEDED || ic->type() == ICMP::PARAM_PROBLEM;
         if (const ICMPv6* i6 = dynamic_cast<const ICMPv6*>(q)) lv.rfc4884 = i6->type() == ICMPv6::DEST_UNREACHABLE || i6->type() == ICMPv6::TIME_EXCEEDED;
@@ -89,6 +96,8 @@ static void compare(const std::string& ename, const std::vector<LayerView>& a0, 
             }
             if (derived().count(key)) { cnt("derived_field_changed"); continue; }
             if (x.rfc4884 && rfc4884_alias().count(key)) { cnt("rfc4884_length_alias_changed"); continue; }
+            if ((key == "LLC.ssap" || key == "LLC.dsap") && ((atoi(x.kv[k].second.c_str()) ^ atoi(z.kv[k].second.c_str())) & 1)) {      // the low bit of a SAP octet is not part of the address (SSAP: command/response, DSAP: individual/group): it is a field of its own and must survive
+                violation(g_kp + "view-differs/" + key + "/low-bit", key + ": " + x.kv[k].second + " -> " + z.kv[k].second + " (the " + (key == "LLC.ssap" ? "command/response" : "individual/group") + " bit changed) in layer " + std::to_string(i) + " of " + chain_str(a) + " :: " + ctx); return; }
             if (tags().count(key)) { if (!x.next_is_raw_nonempty) { cnt(x.has_next ? "tag_rederived_for_recognised_payload" : "tag_free_without_payload"); continue; } }
             violation(g_kp + "view-differs/" + key, key + ": " + x.kv[k].second.substr(0, g_built ? 600 : 120) + " -> " + z.kv[k].second.substr(0, g_built ? 600 : 120) + " in layer " + std::to_string(i) + " of " + chain_str(a) + " :: " + ctx); return;
         }
